@@ -23,9 +23,10 @@ CONF = {
         "assumptions": ["loop-bodied CloneWith methods (OpSpec, ChildActions) are classified FEach by the translator; their agreement with the code rests on the reflection harness"],
     },
     "C13": {
+        "obligations": ["ConstC13.v"],
         "n": {"quick": 800, "thorough": 10000},
         "shard": 400,
-        "trusted_base": ["text/template + sprig, yaml.v3, encoding/json, magiconair properties, the file system and the process environment are external (Section variables of the model); export/import round trips are tests relative to the bare codec"],
+        "trusted_base": ["the translator also lists the package-level string constants of /repo (coq/gen/GoConsts.v) on every run; the generated obligation gen/ConstC13.v re-proves that the literals the model and the harness use are the ones the source declares", "text/template + sprig, yaml.v3, encoding/json, magiconair properties, the file system and the process environment are external (Section variables of the model); export/import round trips are tests relative to the bare codec"],
         "assumptions": ["target paths do not index into an existing non-list node (C03's domain)"],
     },
     "C14": {
@@ -42,9 +43,10 @@ CONF = {
         "assumptions": ["sibling order values distinct (sortActionNames uses an unstable sort: ties are unspecified)", "conditions are constant or read data not written by the same action"],
     },
     "C17": {
+        "obligations": ["ConstC17.v"],
         "n": {"quick": 640, "thorough": 8000},
         "shard": 320,
-        "trusted_base": ["gopkg.in/yaml.v3 / encoding/json / magiconair properties: the manifest model starts after yaml.Unmarshal and ends before the YAML encode; round trips of embedded documents are checked relative to the bare codec", "encoding/base64 is re-modelled (b64_enc/b64_dec) and compared"],
+        "trusted_base": ["the translator also lists the package-level string constants of /repo (coq/gen/GoConsts.v) on every run; the generated obligation gen/ConstC17.v re-proves that the literals the model and the harness use are the ones the source declares", "gopkg.in/yaml.v3 / encoding/json / magiconair properties: the manifest model starts after yaml.Unmarshal and ends before the YAML encode; round trips of embedded documents are checked relative to the bare codec", "encoding/base64 is re-modelled (b64_enc/b64_dec) and compared"],
         "assumptions": ["text items that bare yaml.v3 (as configured by utils.NewYamlEncoder) does not round-trip on its own are a known finding (known_findings.txt)"],
     },
     "C19": {
@@ -54,9 +56,10 @@ CONF = {
         "assumptions": ["values mention leaf keys acyclically (a true cycle makes the resolver panic by contract; a mention of a container key makes Lookup's type assertion panic)"],
     },
     "C18": {
+        "obligations": ["ConstC18.v"],
         "n": {"quick": 500, "thorough": 8000},
         "shard": 250,
-        "trusted_base": ["yaml.v3 for the AddDocumentFromReader stream"],
+        "trusted_base": ["the translator also lists the package-level string constants of /repo (coq/gen/GoConsts.v) on every run; the generated obligation gen/ConstC18.v re-proves that the literals the model and the harness use are the ones the source declares", "yaml.v3 for the AddDocumentFromReader stream"],
         "assumptions": ["documents have path-safe keys; generated values are yaml-round-trippable (no floats) for the FromReader variant"],
     },
     "C06": {
@@ -78,21 +81,24 @@ CONF = {
         "assumptions": ["delimiter triples from a fixed set of 5 non-overlapping triples; text alphabet disjoint from delimiter bytes", "termination is proved only for pure-text tables and separator-free inputs (C11_terminates_partial); beyond that it is searched (exhaustive small scope + timeout), not proved"],
     },
     "C09": {
+        "obligations": ["ConstC09.v"],
         "n": {"quick": 700, "thorough": 10000},
         "shard": 350,
-        "trusted_base": [],
+        "trusted_base": ["the translator also lists the package-level string constants of /repo (coq/gen/GoConsts.v) on every run; the generated obligation gen/ConstC09.v re-proves that the literals the model and the harness use are the ones the source declares", ],
         "assumptions": ["non-root pointers; the '-' token is out of scope; tokens are not of the form name[digits] (on a container Child would resolve them as list items)"],
     },
     "C08": {
+        "obligations": ["ConstC07.v"],
         "n": {"quick": 700, "thorough": 10000},
         "shard": 350,
-        "trusted_base": ["utils.ParseListPathComponent's regexp re-implemented as a string function (has_index_group / scan_indexes)"],
+        "trusted_base": ["the translator also lists the package-level string constants of /repo (coq/gen/GoConsts.v) on every run; the generated obligation gen/ConstC07.v re-proves that the literals the model and the harness use are the ones the source declares", "utils.ParseListPathComponent's regexp re-implemented as a string function (has_index_group / scan_indexes)"],
         "assumptions": ["L and R agree wherever both define a position; every list item contains at least one scalar; path-safe keys"],
     },
     "C07": {
+        "obligations": ["ConstC07.v"],
         "n": {"quick": 800, "thorough": 12000},
         "shard": 400,
-        "trusted_base": ["Go's sort.SliceStable is a stable sort (modelled by insertion sort; uniqueness of the stably sorted list is proved)", "cmp.Equal on scalars"],
+        "trusted_base": ["the translator also lists the package-level string constants of /repo (coq/gen/GoConsts.v) on every run; the generated obligation gen/ConstC07.v re-proves that the literals the model and the harness use are the ones the source declares", "Go's sort.SliceStable is a stable sort (modelled by insertion sort; uniqueness of the stably sorted list is proved)", "cmp.Equal on scalars"],
         "assumptions": ["path-safe keys"],
     },
     "C02": {
